@@ -75,16 +75,23 @@ def setPath : List String → V → List (String × V) → Option (List (String 
     | some _ => Option.none
 
 mutual
-/-- `confectioner.mix(dish, ingredient)` with `dicts='merge', lists='overwrite'` on two dicts -/
-def mixObj (d : List (String × V)) : List (String × V) → List (String × V)
+/-- `confectioner.mix(dish, ingredient)` with `dicts='merge', lists='overwrite'` on two dicts: the loop
+    `for k, v in ingredient.items(): dish[k] = merge(dish.get(k), v)`.  A Python dict has no duplicate keys;
+    on an association list that has some, only the first entry of a key counts (as `alookup` reads it):
+    `seen` holds the keys already processed. -/
+def mixObjAux (seen : List String) (d : List (String × V)) : List (String × V) → List (String × V)
   | [] => d
-  | (k, v) :: rest => mixObj (ainsert k (mixVal (alookup k d) v) d) rest
+  | (k, v) :: rest =>
+    if seen.contains k then mixObjAux seen d rest
+    else mixObjAux (k :: seen) (ainsert k (mixVal (alookup k d) v) d) rest
 def mixVal (old : Option V) : V → V
   | .dict iv => match old with
-      | some (.dict dv) => .dict (mixObj dv iv)
-      | _ => .dict (mixObj [] iv)
+      | some (.dict dv) => .dict (mixObjAux [] dv iv)
+      | _ => .dict (mixObjAux [] [] iv)
   | v => v
 end
+
+def mixObj (d i : List (String × V)) : List (String × V) := mixObjAux [] d i
 
 /-- `mix` on values; labrea only ever calls it on two dicts, a non-dict `dish` is replaced -/
 def mix (dish ingredient : V) : V :=
